@@ -159,6 +159,11 @@ func cmdGemHist(args []string) {
 				if size == 0 {
 					return 0
 				}
+				// favour a few "base" values so that several results branch off the same operand
+				// and earlier results keep being observed afterwards
+				if g.chance(0.45) {
+					return g.r.Intn(1 + size/3)
+				}
 				return g.r.Intn(size)
 			}
 			k := g.r.Intn(16)
@@ -203,12 +208,22 @@ func cmdGemHist(args []string) {
 					o = gemOp{name: "len", i: pick()}
 				}
 			}
-			var res string
-			pool, res = runGemStep(pool, o)
+			seq := []gemOp{o}
+			if size >= 2 && g.chance(0.12) {
+				// two results branching off one Add result, the first observed before and after the second
+				a, b, c := pick(), pick(), pick()
+				seq = []gemOp{{name: "add", i: a, j: b}, {name: "add", i: size, j: c}, {name: "len", i: size + 1},
+					{name: "add", i: size, j: pick()}, {name: "len", i: size + 1}, {name: "charat", i: size + 1, a: g.r.Intn(4)}}
+			}
+			for _, o := range seq {
+				var res string
+				pool, res = runGemStep(pool, o)
+				optoks = append(optoks, o.tok())
+				restoks = append(restoks, res+"|"+snapshot(pool))
+			}
 			size = len(pool)
-			optoks = append(optoks, o.tok())
-			restoks = append(restoks, res+"|"+snapshot(pool))
 		}
+		steps = len(optoks)
 		fmt.Fprintf(w, "g%d-%d %d %s # %s\n", *seed, c, steps, strings.Join(optoks, " "), strings.Join(restoks, " "))
 	}
 	must(w.Flush())
